@@ -100,7 +100,7 @@ def corpus(ctx, n_random, n_shaped, enum_widths, small_cap=None):
         cc = [e for e in cc if len(e.args) <= 2] + rng.sample([e for e in cc if len(e.args) == 3], 1200)
     else:
         cc += exprgen.enumerate_cc(8)[::7]
-    small = cc + small
+    small = cc + exprgen.enumerate_ext_cmp() + small
     return exprs, small
 
 
